@@ -799,19 +799,14 @@ impl<'a> GeneralCheck<'a> {
                 }
             }
             Regex::Commit(_) => *attempt = None,
-            Regex::Return(regex) => {
-                // the return closes the rule node, which was opened before the attempt
-                if attempt.is_some() {
-                    diags.push(Diagnostic::return_in_ordered_choice(&regex.span(cst)));
-                }
-            }
             Regex::Name(_)
             | Regex::Symbol(_)
             | Regex::Predicate(_)
             | Regex::Action(_)
             | Regex::Assertion(_)
             | Regex::NodeRename(_)
-            | Regex::NodeElision(_) => {}
+            | Regex::NodeElision(_)
+            | Regex::Return(_) => {}
         };
     }
 }
@@ -1339,6 +1334,7 @@ impl<'a> LL1Validator {
         for rule in file.rule_decls(cst) {
             if let Some(regex) = rule.regex(cst) {
                 Self::check_regex(cst, sema, diags, regex, rule, sema.recursive.get(&rule));
+                Self::check_return(cst, sema, diags, regex, &mut false, &mut None);
             }
         }
         // left recursion usually results in an LL(1) conflict, except if the conflict
@@ -1347,6 +1343,86 @@ impl<'a> LL1Validator {
             for rule in file.rule_decls(cst) {
                 Self::check_left_recursion(cst, sema, diags, rule);
             }
+        }
+    }
+
+    /// Reports a return that can be reached in the active error state without progress.
+    ///
+    /// `consumed` tells if the rule has consumed a token on every path to the regex.
+    /// A rule that returns before that makes a repetition that contains it loop forever.
+    /// `attempt` is `Some` inside of an ordered choice alternative that can still be
+    /// abandoned and tells if the alternative has consumed a token. Before that an
+    /// error from in front of the ordered choice can still be active, but the return
+    /// would only leave the alternative after it has closed the node of the rule.
+    fn check_return(
+        cst: &Cst<'_>,
+        sema: &SemanticData<'a>,
+        diags: &mut Vec<Diagnostic>,
+        regex: Regex,
+        consumed: &mut bool,
+        attempt: &mut Option<bool>,
+    ) {
+        let branch = |diags: &mut Vec<Diagnostic>, op: Regex, attempt: Option<bool>| {
+            Self::check_return(cst, sema, diags, op, &mut consumed.clone(), &mut attempt.clone());
+        };
+        match regex {
+            Regex::Concat(concat) => {
+                let (mut consumed, mut attempt) = (*consumed, *attempt);
+                for op in concat.operands(cst) {
+                    Self::check_return(cst, sema, diags, op, &mut consumed, &mut attempt);
+                    let nullable = sema
+                        .first_sets
+                        .get(&op.syntax())
+                        .is_some_and(|first| first.contains(&TokenName::EPSILON));
+                    if !nullable {
+                        consumed = true;
+                        attempt = attempt.map(|_| true);
+                    }
+                }
+            }
+            Regex::Alternation(alt) => alt
+                .operands(cst)
+                .for_each(|op| branch(diags, op, *attempt)),
+            Regex::OrderedChoice(choice) => {
+                let count = choice.operands(cst).count();
+                for (i, op) in choice.operands(cst).enumerate() {
+                    let attempt = if i + 1 < count {
+                        attempt.or(Some(false))
+                    } else {
+                        *attempt
+                    };
+                    branch(diags, op, attempt);
+                }
+            }
+            Regex::Paren(paren) => {
+                if let Some(op) = paren.inner(cst) {
+                    branch(diags, op, *attempt);
+                }
+            }
+            Regex::Optional(opt) => {
+                if let Some(op) = opt.operand(cst) {
+                    branch(diags, op, *attempt);
+                }
+            }
+            Regex::Star(star) => {
+                if let Some(op) = star.operand(cst) {
+                    branch(diags, op, *attempt);
+                }
+            }
+            Regex::Plus(plus) => {
+                if let Some(op) = plus.operand(cst) {
+                    branch(diags, op, *attempt);
+                }
+            }
+            Regex::Commit(_) => *attempt = None,
+            Regex::Return(ret) => {
+                if !*consumed {
+                    diags.push(Diagnostic::return_without_token(&ret.span(cst)));
+                } else if *attempt == Some(false) {
+                    diags.push(Diagnostic::return_in_ordered_choice(&ret.span(cst)));
+                }
+            }
+            _ => {}
         }
     }
 
